@@ -52,7 +52,12 @@ Clauses(o, ev, o2, p) ==
                  ELSE IF ~p.idle /\ CleanHistory(o)
                          /\ \A a \in DOMAIN o.reqs : BusyReq(o, a) => App(o, a).done = ""
                          \* (a response delimited by the end of the connection is finished by this very close)
-                         /\ \A b \in DOMAIN o.reqs : BusyReq(o, b) => ~(Wire(o, b).framing = "close" /\ App(o, b).final)
+                         \* (... or has been handed over completely by its application while the client was not
+                         \*  reading: what is on the wire is then unknown to the observer, and a connection that
+                         \*  cannot be kept - HTTP/1.0, connection: close - is closed right behind the last message)
+                         /\ \A b \in DOMAIN o.reqs : BusyReq(o, b) =>
+                                ~(App(o, b).final /\ (Wire(o, b).framing = "close" \/ Req(o, b).ver = "1.0" \/ Req(o, b).wantclose
+                                                      \/ o.paused))
                       THEN <<F("closed-while-busy", IF WsOpen(o) THEN "websocket"
                                                     ELSE IF ParkedPipeline(o) THEN "pipelined-request-pending"
                                                     ELSE o.cfg.carrier)>>
